@@ -387,30 +387,11 @@ func (w *world) push(resp *discoveryv3.DiscoveryResponse) bool {
 
 // get performs a lookup and canonicalises the result.
 func (w *world) get(rt xdsresource.ResourceType, name string) string {
-	// a lookup that does not come back long after its fetch timeout is reported as "hang" (and the world as hung: further
-	// lookups on it are not attempted - every one would cost the same patience)
-	if w.hung {
-		return "hang"
-	}
+	// (no watchdog here: the scenarios that expect a lookup to hang measure that themselves - they run it in a goroutine
+	// of its own - and a script that is blocked on the main goroutine is ended by the process-level hang watch)
 	var res interface{}
 	var err error
-	var p bool
-	var msg string
-	done := make(chan struct{})
-	go func() {
-		p, msg = recoverTo(func() { res, err = w.m.Get(context.Background(), rt, name) })
-		close(done)
-	}()
-	patience := w.opts.fetchTimeout
-	if patience <= 0 || patience > 20*time.Second {
-		patience = 20 * time.Second
-	}
-	select {
-	case <-done:
-	case <-time.After(patience + 8*time.Second):
-		w.hung = true
-		return "hang"
-	}
+	p, msg := recoverTo(func() { res, err = w.m.Get(context.Background(), rt, name) })
 	if p {
 		return "panic:" + msg
 	}
